@@ -227,8 +227,20 @@ def package_libs(rng, count):
                 tags.add("import-in-model:" + form)
             else:
                 # the imports belong to an enclosing package of the flattened model
+                more = ""
+                if "A.*" in imp_decl and rng.random() < 0.6:
+                    # dotted names whose head comes from the unqualified import but whose tail is not there: a class
+                    # that does not exist anywhere (flatten fails, every time), and one that a top-level package of
+                    # the same name as the imported one provides
+                    more += "  model Typo\n    S.X9 q;\n  end Typo;\n"
+                    classes.append("Pk.Typo")
+                    if rng.random() < 0.6:
+                        parts.append("package S\n  model X3\n    Real a3;\n  equation\n    a3 = 5;\n  end X3;\nend S;\n")
+                        more += "  model Shadow\n    S.X3 q;\n  end Shadow;\n"
+                        classes.append("Pk.Shadow")
+                    tags.add("dotted-name-with-head-from-unqualified-import-and-tail-elsewhere")
                 parts.append("package Pk\n%s  model M\n    %s x;\n    %s y;\n  %s    Real t;\n  equation\n    t = x.a + y.b;\n  end M;\n"
-                             "  model N\n    %s x2;\n  end N;\nend Pk;\n" % (imp_decl, cx, cy, dotted, cx))
+                             "  model N\n    %s x2;\n  end N;\n%send Pk;\n" % (imp_decl, cx, cy, dotted, cx, more))
                 classes += ["Pk.M", "Pk.N"]
                 tags.add("import-in-enclosing-package:" + form)
         L = Lib("package-library-%d" % k, ["".join(parts)])
